@@ -1027,8 +1027,22 @@ fn fill_hole(ctx: &mut Ctx, template_name: &str, tpl: &str, hole_start: usize, h
         }
         let mut f2 = Vec::new();
         let b2 = transform_body(src, &f, &dirs, &mut f2, Some(&en))?;
+        let clauses = sp.get("clauses").cloned().unwrap_or_else(|| format!("this.post({args}, r)"));
         for v in variants {
-            let _ = write!(split_text, "\n#[verifier::spinoff_prover]\nfn {name}__{en}__{v}(this: &{en}, {params}) -> (r: {ret})\n    requires *this is {v}, this.pre({args}),\n    ensures this.post({args}, r),\n{b2}\n");
+            let mut ens = String::new();
+            for c in clauses.split(";;") {
+                let c = c.trim();
+                // `[C01 C02: name] clause`
+                if let Some(rest) = c.strip_prefix('[') {
+                    if let Some((lab, cl)) = rest.split_once(']') {
+                        let (ids, nm) = lab.split_once(':').unwrap_or((lab, ""));
+                        let _ = write!(ens, "        // [{}: {}::{v} {}]\n        {},\n", ids.trim(), en, nm.trim(), cl.trim());
+                        continue;
+                    }
+                }
+                let _ = write!(ens, "        {c},\n");
+            }
+            let _ = write!(split_text, "\n#[verifier::spinoff_prover]\nfn {name}__{en}__{v}(this: &{en}, {params}) -> (r: {ret})\n    requires *this is {v}, this.pre({args}),\n    ensures\n{ens}{b2}\n");
         }
     }
     let sp = f.span();
